@@ -31,8 +31,14 @@ ALLKEYS = ["MASTER", "BIP85", "BIP44", "EXTRA", "BIP49", "BIP84"]
 
 class Leaf(SymVal):
     """an opaque leaf value of the wallet dictionary (identified by where it came from)"""
-    def __init__(self, origin):
+    def __init__(self, origin, truthy=None):
         self.origin = origin
+        self.truthy = truthy          # None: unknown (asking is UNDECIDED); True/False: stated by the contract that builds it
+
+    def sym_truthy(self, ctx):
+        if self.truthy is None:
+            raise Undecided("truthiness of leaf " + self.origin)
+        return self.truthy
 
     def __repr__(self):
         return f"Leaf({self.origin})"
@@ -418,7 +424,8 @@ class MainWiring:
         if B.concrete:
             raise Undecided("main() over summarised callees has no concrete replay (covered by the C20 process-level harness)")
         cmd = COMMANDS[B.case("command", len(COMMANDS))]
-        file = [None, Leaf("args.file")][B.case("file_given", 2)]
+        # a --file value that passed file_ is a non-empty path ("" names the current directory and is refused)
+        file = [None, Leaf("args.file", truthy=True)][B.case("file_given", 2)]
         fields = dict(command=cmd, testnet=B.bool("testnet"), paranoia=B.bool("paranoia"), account=Leaf("args.account"),
                       interval=Leaf("args.interval"), file=file, password=Leaf("args.password"),
                       mnemonic_len=Leaf("args.mnemonic_len"), master_xprv=Leaf("args.master_xprv"),
